@@ -281,6 +281,14 @@ def loader_positions(ctx, n):
         text, pos = em(rng, doc)
         ops.append({'op': 'doc', 'data': text, 'loader': 'cli'})
         meta.append((name, doc, text, pos))
+    # a document that is a single scalar, not at the start of the text
+    for sc in (7, 'abc', True, None, 1.5, 'x y'):
+        for prefix in ('', '\n', '\n\n  ', '# c\n\n   ', '---\n', '--- ', '  ', '# a\n# b\n', '---\n# c\n    '):
+            text = prefix + scalar_json(sc) + '\n'
+            line = prefix.count('\n')
+            col = len(prefix) - (prefix.rfind('\n') + 1)
+            ops.append({'op': 'doc', 'data': text, 'loader': 'cli'})
+            meta.append(('root-scalar', sc, text, {'': (line, col)}))
     res = impl.run_ops_parallel(ops, ctx.wd, 'c10docs')
     checked = 0
     per = {}
@@ -363,6 +371,50 @@ def first_segment(remaining):
     return m.group(1) if m else None
 
 
+def alias_spellings(k):
+    """other spellings of a PascalCase key that the case converters of the query engine map back to it"""
+    if not re.fullmatch(r'[A-Z][A-Za-z]+', k):
+        return []
+    snake = re.sub(r'(?<!^)([A-Z])', r'_\1', k).lower()
+    out = [k[0].lower() + k[1:], snake]
+    if '_' in snake:
+        out.append('"' + snake.replace('_', '-') + '"')
+    return [a for a in out if a.strip('"') != k]
+
+
+def alias_rules(rng, doc, count):
+    """queries that spell ONE key of an existing path in another casing and then ask for a key that does not exist: the
+    unresolved value must be reported at the end of the existing path (returns rules text and {rule name: pointer})"""
+    paths = [p for p, v in gen.doc_paths(doc) if p and all(isinstance(x, int) or re.fullmatch(r'[A-Za-z][A-Za-z0-9]*', x) for x in p)]
+    rng.shuffle(paths)
+    text, want = '', {}
+    for p in paths:
+        if len(want) >= count:
+            break
+        cand = []
+        cur = doc
+        for i, seg in enumerate(p):
+            if isinstance(cur, dict) and isinstance(seg, str):
+                for a in alias_spellings(seg):
+                    if a.strip('"') not in cur:
+                        cand.append((i, a))
+            cur = cur[seg]
+        if not cand or (isinstance(cur, dict) and any(k.lower().startswith('zzq') for k in cur)):
+            continue
+        i, a = rng.choice(cand)
+        q = ''
+        for j, seg in enumerate(p):
+            if isinstance(seg, int):
+                q += '[%d]' % seg
+            else:
+                q += ('.' if q else '') + (a if j == i else seg)
+        tail = rng.choice(['zzq', 'zzq.deeper', 'zzq[0]'])
+        name = 'alias%d' % len(want)
+        text += 'rule %s {\n  %s.%s exists\n}\n' % (name, q, tail)
+        want[name] = '/' + '/'.join(str(x) for x in p)
+    return text, want
+
+
 def reported_paths(ctx, n):
     rng = random.Random(ctx.seed * 401 + 11)
     jobs, scen = [], []
@@ -372,15 +424,17 @@ def reported_paths(ctx, n):
             doc = {'v': doc}
         prog = gen.ProgGen(rng, doc, {'cycles': 0.0, 'functions': False, 'miss': 0.4, 'captures': False, 'literal_lets': False, 'params': False}).gen_file()
         rules = gen.render_file(prog)
+        atext, awant = alias_rules(rng, doc, 3)
+        rules += atext
         name, em = EMITTERS[k % len(EMITTERS)]
         text, pos = em(rng, doc)
         d = os.path.join(ctx.wd, 'q%d' % k)
         fn = 'd.json' if name == 'json' else 'd.yaml'
         e2e.write_files(d, {'r.guard': rules, fn: text})
-        scen.append({'rules': rules, 'doc': doc, 'text': text, 'pos': pos, 'format': name})
+        scen.append({'rules': rules, 'doc': doc, 'text': text, 'pos': pos, 'format': name, 'alias': awant})
         jobs.append({'args': ['validate', '-r', 'r.guard', '-d', fn, '--structured', '-o', 'json', '-S', 'none'], 'cwd': d})
     res = e2e.run_many(jobs)
-    npaths, nun, nloc = 0, 0, 0
+    npaths, nun, nloc, nalias = 0, 0, 0, 0
     for sc, (code, so, se) in zip(scen, res):
         if code not in (0, 19):
             continue
@@ -392,6 +446,32 @@ def reported_paths(ctx, n):
         leaves = []
         for cr in rep['not_compliant']:
             walk_checks(cr, leaves)
+        # the directed alias rules: the unresolved point is the end of the existing path
+        seen_alias = set()
+        for cr in rep['not_compliant']:
+            nm = cr.get('Rule', {}).get('name')
+            if nm in sc['alias']:
+                seen_alias.add(nm)
+                al = []
+                walk_checks(cr, al)
+                urs = []
+                def coll(x):
+                    if isinstance(x, dict):
+                        if 'traversed_to' in x and 'remaining_query' in x:
+                            urs.append(x)
+                        for v in x.values():
+                            coll(v)
+                    elif isinstance(x, list):
+                        for v in x:
+                            coll(v)
+                coll(al)
+                nalias += 1
+                if len(urs) != 1 or urs[0]['traversed_to']['path'] != sc['alias'][nm] or not (urs[0].get('remaining_query') or '').startswith('zzq'):
+                    ctx.failing('a query that reaches %s through a differently cased key and then asks for a missing key reports the unresolved point %s' %
+                                (sc['alias'][nm], [(u['traversed_to']['path'], u.get('remaining_query')) for u in urs]), dict(info, rule=nm), found=True)
+        for nm in sc['alias']:
+            if nm not in seen_alias:
+                ctx.failing('rule %s asks for a missing key and is not reported as failing' % nm, dict(info, rule=nm), found=True)
         for lf in leaves:
             items = []      # (role, {path, value})
             unresolved = []
@@ -439,6 +519,7 @@ def reported_paths(ctx, n):
     ctx.coverage['reported_paths_checked'] = npaths
     ctx.coverage['unresolved_checks_checked'] = nun
     ctx.coverage['message_locations_checked'] = nloc
+    ctx.coverage['case_alias_queries_checked'] = nalias
     ctx.coverage['evaluations'] += n
     ctx.sample({'rules': scen[0]['rules'], 'format': scen[0]['format'], 'text': scen[0]['text'][:600]})
     return npaths + nun
